@@ -341,8 +341,10 @@ def gen_hist_cases(ck, cs, n, malformed_p=0.12):
     rng = ck.rng
     kinds = ["ctor_probs", "ctor_counts", "remove", "post_select_m", "aggregate", "frequencies", "expectation",
              "post_select_fn", "strip", "split", "split_desired", "split_last_n", "oneterm", "filter", "marginal_expectation"]
-    for _ in range(n):
-        kind = rng.choice(kinds)
+    state = {}
+
+    def one_case():
+        kind = state['kind'] = rng.choice(kinds)
         bad = rng.random() < malformed_p
         st = "histogram-ops"
         if kind == "ctor_probs":
@@ -524,6 +526,19 @@ def gen_hist_cases(ck, cs, n, malformed_p=0.12):
             else:
                 expr = "sq (oneterm %s %s)" % (coq_nats([q for q, _ in term]), coq_hist(d))
             cs.add(st, case, impl, expr, kind="value")
+            # oracle: the value is the explicit +-1 parity sum over the characters of every bitstring
+            if d and all(q < L for q, _ in term) and len({len(k) for k in d}) == 1 and not isinstance(impl, str):
+                tot = exact_total(d)
+                ref = None
+                if kind == "oneterm":
+                    ref = F(bf_expect(term, d))
+                elif tot != 0:
+                    ref = F(coeff) * F(bf_expect(term, d)) / tot
+                if ref is not None:
+                    oracle(ck, "C18/%s/not-the-parity-sum" % ("get_expectation_value_from_frequencies_oneterm" if kind == "oneterm" else "Histogram.get_expectation_value"),
+                           abs(F(impl) - ref) <= F(1, 10**9),
+                           "term %s on %s: %r, explicit parity sum %s" % (term, show_impl_hist(d)[:300], impl, ref),
+                           {"kind": "long_oneterm" if kind == "oneterm" else "expectation", "term": [list(x) for x in term], "d": jd(d), "coeff": str(coeff)})
         elif kind == "marginal_expectation":
             # property oracle only: marginalising qubits outside the term's support keeps its expectation
             d, mode = rand_hist(rng, rng.choice(["counts", "fcounts", "probs"]))
@@ -551,6 +566,8 @@ def gen_hist_cases(ck, cs, n, malformed_p=0.12):
                 impl = before
             except ZeroDivisionError:
                 impl = "Err:ZeroDivisionError"
+            except Exception as e:
+                impl = err_name(e)
             expr = "sq (hist_expectation %s %s (remove_qubit_indices %s %s))" % (
                 coq_nats([q for q, _ in new_term]), coq_Q(1), coq_zs(R), coq_hist(d))
             cs.add(st, case, impl, expr, kind="value")
@@ -616,6 +633,17 @@ def gen_hist_cases(ck, cs, n, malformed_p=0.12):
             cs.add(st, case, impl, "show_hist (filter_hist (fun k => Bool.eqb (nth %s k false) %s) %s)" % (coq_nat(q), coq_bool(b == "1"), coq_hist(d)))
             oracle(ck, "C18/filter_hist/not-a-restriction", impl == {k: v for k, v in d.items() if k[q] == b} and dict(h.counts) == d,
                    "filter_hist changed values or its operand", {"kind": kind, "d": jd(d), "q": q, "b": b})
+
+    for _ in range(n):
+        try:
+            one_case()
+        except Exception as e:              # the implementation raised where neither the model nor the oracle expects it
+            import traceback
+            tb = traceback.format_exc()
+            inside = "/tangelo/" in tb.split("harness/props/C18.py")[-1]
+            ck.violation("C18/%s/unexpected-%s" % (state.get("kind"), type(e).__name__),
+                         "case of kind %s raised %r %s" % (state.get("kind"), e, "inside tangelo" if inside else "inside the harness"),
+                         {"kind": "raised", "case_kind": state.get("kind"), "traceback": tb[-1500:]}, found_input=inside)
 
 
 def case_tags(case):
@@ -907,8 +935,13 @@ def long_key_grouping(ck, n):
                          "operator %s on %d qubits: assembled %r, explicit parity sum %r" % (op, nq, val, ref), {"kind": "long_grouping", **case})
         for b, sub in gd.items():
             for t in sub:
-                e1 = oneterm(t, dict(hd[b]))
-                e2 = Histogram(dict(hd[b])).get_expectation_value(t, 1.)
+                try:
+                    e1 = oneterm(t, dict(hd[b]))
+                    e2 = Histogram(dict(hd[b])).get_expectation_value(t, 1.)
+                except Exception as e:
+                    ck.violation("C18/get_expectation_value_from_frequencies_oneterm/raises-on-long-register",
+                                 "term %s on %d qubits: %r" % (t, nq, e), {"kind": "long_oneterm", "term": [list(x) for x in t], "d": jd(hd[b])})
+                    continue
                 r = float(bf_expect(t, hd[b]))
                 if abs(e1 - r) > 1e-9 or abs(e2 - r) > 1e-9:
                     ck.violation("C18/get_expectation_value_from_frequencies_oneterm/wrong-parity-on-long-register",
@@ -1034,16 +1067,23 @@ def run(ck):
               "zero totals, empty dictionaries) through Histogram(), remove_qubit_indices, post_select, +/aggregate, frequencies, "
               "get_expectation_value, filter_hist, post_select(), strip_post_selection, split_frequency_dict(*), oneterm; "
               "non-trivial = no exception and >= 3 keys; distinct = distinct (kind, input) pairs")
+    def guarded(name, f):
+        """One stream must not stop the others: a crash is reported for that stream and the search goes on."""
+        try:
+            f()
+        except Exception:
+            import traceback
+            tb = traceback.format_exc()
+            ck.violation("C18/stream-crash/%s" % name, "stream %s could not complete: %s" % (name, tb.splitlines()[-1]),
+                         {"kind": "crash", "stream": name, "traceback": tb[-3000:]}, found_input=False)
+
     cs = Cases(ck)
-    gen_hist_cases(ck, cs, 700 if quick else 9000)
-    compare_cases(ck, cs, "hist")
-    gen_grouping_cases(ck, 150 if quick else 2000, [0, 1] if quick else [None, 0, 1, 2, 3])
-    long_key_grouping(ck, 40 if quick else 500)
-    resampling(ck, 60 if quick else 600)
-    if quick:
-        exhaustive(ck, 2, lambda L, counts: True)
-    else:
-        exhaustive(ck, 3, lambda L, counts: True)
+    guarded("histogram-ops", lambda: gen_hist_cases(ck, cs, 700 if quick else 9000))
+    guarded("histogram-ops-model", lambda: compare_cases(ck, cs, "hist"))
+    guarded("grouping", lambda: gen_grouping_cases(ck, 150 if quick else 2000, [0, 1] if quick else [None, 0, 1, 2, 3]))
+    guarded("long-registers", lambda: long_key_grouping(ck, 40 if quick else 500))
+    guarded("resampling", lambda: resampling(ck, 60 if quick else 600))
+    guarded("exhaustive-small", lambda: exhaustive(ck, 2 if quick else 3, lambda L, counts: True))
 
 
 def replay(data, ck=None):
@@ -1067,6 +1107,24 @@ def replay(data, ck=None):
         ref = bf_marginal(d, [i for i in range(L) if i not in r["R"]])
         print(d, r["R"], "->", h.counts, "expected", ref)
         fails = int(h.counts != ref)
+    elif kind in ("long_oneterm", "expectation"):
+        from tangelo.linq import get_expectation_value_from_frequencies_oneterm as oneterm
+        d = unjd(r["d"])
+        term = tuple((q, s) for q, s in r["term"])
+        if kind == "long_oneterm":
+            got, ref = oneterm(term, dict(d)), F(bf_expect(term, d))
+        else:
+            c = F(r.get("coeff", "1"))
+            got, ref = Histogram(dict(d)).get_expectation_value(term, c), c * F(bf_expect(term, d)) / exact_total(d)
+        print("term", term, "on", show_impl_hist(d)[:400], "->", got, "explicit parity sum", ref)
+        fails = int(abs(F(got) - ref) > F(1, 10**9))
+    elif kind in ("ctor_counts", "ctor_msq"):
+        d = unjd(r["d"])
+        h = Histogram(dict(d), n_shots=r.get("n", 0), msq_first=True)
+        h0 = Histogram(dict(d), n_shots=r.get("n", 0), msq_first=False)
+        exp = {k[::-1]: v for k, v in h0.counts.items()}
+        print(d, "msq_first ->", h.counts, "expected", exp)
+        fails = int(h.counts != exp)
     else:
         print(json.dumps(r, indent=1, default=str)[:4000])
         fails = 1
